@@ -217,16 +217,7 @@ Proof. vm_compute. repeat split. Qed.
 
 Theorem C19_is_string_regex : forall v,
   (is_string v = true <-> exists s, v = SStr s) /\ is_regex (Some v) = false /\ is_regex None = true.
-Proof.
-  exact (fun v => conj (conj (fun H => match v as v0 return is_string v0 = true -> exists s, v0 = SStr s with
-                                         | SStr s => fun _ => ex_intro _ s eq_refl
-                                         | SNull => fun H0 => False_ind _ (Bool.diff_false_true H0)
-                                         | SBool _ => fun H0 => False_ind _ (Bool.diff_false_true H0)
-                                         | SInt _ => fun H0 => False_ind _ (Bool.diff_false_true H0)
-                                         end H)
-                                   (fun H => match H with ex_intro _ s E => eq_ind_r (fun v0 => is_string v0 = true) eq_refl E end))
-                        (conj eq_refl eq_refl)).
-Qed.
+Proof. exact is_string_regex_spec. Qed.
 
 (* ---- _publish_match ------------------------------------------------------------------------------------ *)
 (* after _publish_match m: $1 is the whole match, $(i+2) is group i+1, $name is the record of the
